@@ -156,7 +156,7 @@ def make_obj(desc):
     if k == "model":
         st = zoo.make_settings(desc["settings"], rng)
         m = zoo.make_model(
-            st, rng, evaluator=desc["ev"], mode=desc["mode"], version=desc["version"], nkernel=desc.get("nkernel", 1)
+            st, rng, evaluator=desc["ev"], mode=desc["mode"], version=desc["version"], nkernel=desc.get("nkernel", 1), layout=desc.get("layout")
         )
         return m, "model"
     raise ValueError(k)
@@ -1153,6 +1153,13 @@ def plan(tier, seed, args):
                 for d in range(2):
                     desc = {"obj": "model", "settings": s, "ev": ev, "mode": mode, "version": ver, "seed": rng.below(10**6), "nkernel": 1 + ((k + d) % 2)}
                     cases.append({"kind": "enum", "desc": desc, "fmt": fmt})
+    # every array layout a caller may hand to the array-carrying evaluators (a view keeps its
+    # strides in memory, a file does not)
+    # (with a single feature NumPy takes other code paths for strided operands)
+    for ev_, mode_, st_ in (("rbf", "SEP", "sl_npa"), ("kernel", "SEP", "sl_npa"), ("kernel", "SEP", "sl_ns"), ("kernel", "NPOL", "sl_ns"), ("rbf", "POL", "sl_ns"), ("rbf+linear", "NPOL", "sl_npa")):
+        for lay in ("strided", "fortran", "cols", "readonly"):
+            desc = {"obj": "model", "settings": st_, "ev": ev_, "mode": mode_, "version": 1, "seed": rng.below(10**6), "nkernel": 1, "layout": lay}
+            cases.append({"kind": "enum", "desc": desc, "fmt": ["yaml", "cyaml", "joblib"][rng.below(3)], "wcap": 60, "cycles": 2})
     # restarts over the enumerated objects, batched
     items = [(c["desc"], c["fmt"]) for c in cases if c["kind"] == "enum"]
     nb = 6 if tier == "quick" else 24
